@@ -611,6 +611,7 @@ class C17(CheckBase):
         log = EventLog()
         fs = SimFS(cwd='/sim')
         nr.open = fs.open
+        fs.install_os_seam(nr)
         viol = []
         stats = {}
         sigset = set()
